@@ -484,6 +484,96 @@ theorem solve_eq_memberSteps (a : Alg S) : ∀ (fuel : Nat) (m : MState S) (n : 
       · simp only [memberSteps]; rw [e]; exact h6
       · rw [h7]; rw [e] at hpw; exact hpw
 
+/-! ### `Step`s followed by `Solve()` -/
+
+/-- the count of `Step()` calls handed to `solve` only shows in its own `steps` field -/
+theorem solve_calls_irrelevant (a : Alg S) : ∀ (fuel : Nat) (c : Ctl) (s : S) (k n n' : Nat),
+    (solve a fuel c s k n).ctl = (solve a fuel c s k n').ctl ∧ (solve a fuel c s k n).st = (solve a fuel c s k n').st ∧
+    (solve a fuel c s k n).msg = (solve a fuel c s k n').msg ∧ (solve a fuel c s k n).iters = (solve a fuel c s k n').iters := by
+  intro fuel
+  induction fuel with
+  | zero => intro c s k n n'; simp [solve]
+  | succ fuel ih =>
+    intro c s k n n'
+    simp only [solve]
+    cases hm : (stepOnce a c s k).2.2.1 with
+    | some m => simp
+    | none => exact ih _ _ _ _ _
+
+/-- a `Solve()` that ran out of budget without a message has made exactly that many `Step()` calls -/
+theorem memberSteps_of_solve_none (a : Alg S) : ∀ (n : Nat) (m : MState S) (c : Nat),
+    (solve a n m.ctl m.st m.k c).msg = none →
+    (memberSteps a n m).ctl = (solve a n m.ctl m.st m.k c).ctl ∧ (memberSteps a n m).st = (solve a n m.ctl m.st m.k c).st ∧
+    (memberSteps a n m).k = (solve a n m.ctl m.st m.k c).iters := by
+  intro n
+  induction n with
+  | zero => intro m c _; simp [solve, memberSteps]
+  | succ n ih =>
+    intro m c h
+    have e : memberStep a m = MState.mk (stepOnce a m.ctl m.st m.k).1 (stepOnce a m.ctl m.st m.k).2.1
+        (if (stepOnce a m.ctl m.st m.k).2.2.2 = true then m.k + 1 else m.k) (stepOnce a m.ctl m.st m.k).2.2.1 := rfl
+    unfold solve at h ⊢
+    simp only at h ⊢
+    cases hm : (stepOnce a m.ctl m.st m.k).2.2.1 with
+    | some msg => simp only [hm] at h; cases h
+    | none =>
+      simp only [hm] at h ⊢
+      have h0 := ih (memberStep a m) (c + 1)
+      rw [e] at h0
+      simp only at h0
+      simp only [memberSteps]
+      rw [e]
+      exact h0 h
+
+/-- `Solve()` cut short by its budget (no message yet) and called again = one `Solve()` with the whole budget -/
+theorem solve_resume' (a : Alg S) : ∀ (f1 f2 : Nat) (c : Ctl) (s : S) (k n : Nat),
+    (solve a f1 c s k n).msg = none →
+    solve a (f1 + f2) c s k n =
+      solve a f2 (solve a f1 c s k n).ctl (solve a f1 c s k n).st (solve a f1 c s k n).iters (solve a f1 c s k n).steps := by
+  intro f1
+  induction f1 with
+  | zero => intro f2 c s k n _; simp [solve]
+  | succ f1 ih =>
+    intro f2 c s k n h
+    have e : f1 + 1 + f2 = (f1 + f2) + 1 := by omega
+    rw [e]
+    simp only [solve] at h ⊢
+    split at h
+    · cases h
+    · exact ih f2 _ _ _ _ h
+
+/-- once `Solve()` has returned a message, more budget changes nothing -/
+theorem solve_stable' (a : Alg S) : ∀ (f1 f2 : Nat) (c : Ctl) (s : S) (k n : Nat),
+    (solve a f1 c s k n).msg.isSome = true → solve a (f1 + f2) c s k n = solve a f1 c s k n := by
+  intro f1
+  induction f1 with
+  | zero => intro f2 c s k n h; simp [solve] at h
+  | succ f1 ih =>
+    intro f2 c s k n h
+    have e : f1 + 1 + f2 = (f1 + f2) + 1 := by omega
+    rw [e]
+    simp only [solve] at h ⊢
+    split
+    · rfl
+    · rename_i hm
+      split at h
+      · rename_i m' hm'
+        rw [hm] at hm'
+        cases hm'
+      · exact ih f2 _ _ _ _ h
+
+/-- a member whose next `Step()` returns a message: its `Solve()` is that one `Step()` -/
+theorem memberContinue_of_message (a : Alg S) (fuel : Nat) (m : MState S) (h : (memberStep a m).msg.isSome = true) :
+    memberContinue a (fuel + 1) m = memberStep a m := by
+  have e : memberStep a m = MState.mk (stepOnce a m.ctl m.st m.k).1 (stepOnce a m.ctl m.st m.k).2.1
+      (if (stepOnce a m.ctl m.st m.k).2.2.2 = true then m.k + 1 else m.k) (stepOnce a m.ctl m.st m.k).2.2.1 := rfl
+  rw [e] at h
+  simp only at h
+  obtain ⟨msg, hm⟩ := Option.isSome_iff_exists.mp h
+  rw [e]
+  unfold memberContinue solve
+  simp only [hm]
+
 end Steps
 
 end MysticVerif.Ens
